@@ -728,6 +728,7 @@ impl Model {
                 retain: true,
                 props: None,
                 wild_topic: crate::topic::ref_has_wildcards(topic),
+                maybe: false,
             };
             let m3 = match3(&probe, &path);
             if m3 == M3::No {
